@@ -27,7 +27,7 @@ for _d in ("Base", "Gen", "Model", "Proofs", "Props", "Findings", "Extract"):
 STD_AXIOMS_ALLOWED: set[str] = set()  # std-lib axioms we accept; none needed so far
 
 FORBIDDEN = re.compile(
-    r"\b(Admitted|admit|Axiom|Axioms|Parameter|Parameters|Conjecture|Conjectures|Hypothesis|"
+    r"\b(Admitted|admit|Axiom|Axioms|Parameter|Parameters|Conjecture|Conjectures|"
     r"Admit Obligations)\b|Unset\s+Guard|bypass_check|type-in-type|impredicative-set|"
     r"Unset\s+Positivity|Unset\s+Universe"
 )
@@ -97,6 +97,18 @@ def grep_gate() -> list[str]:
             txt = re.sub(r"\(\*(?:(?!\(\*|\*\)).)*?\*\)", " ", txt, flags=re.S)
         for m in FORBIDDEN.finditer(txt):
             bad.append(f"{f.relative_to(COQ)}: {m.group(0)}")
+        # Variable / Hypothesis / Context are only allowed inside a Section
+        depth = 0
+        for m in re.finditer(r"(?m)^\s*(Section|Module|End|Variables?|Hypothes[ie]s|Context)\b", txt):
+            w = m.group(1)
+            if w == "Section":
+                depth += 1
+            elif w == "End":
+                depth = max(0, depth - 1)
+            elif w == "Module":
+                pass
+            elif depth == 0:
+                bad.append(f"{f.relative_to(COQ)}: {w} outside a Section")
     return bad
 
 
